@@ -146,9 +146,45 @@ def resolution_guards(ctx, col: Collector, rule: str):
 
     def locate():
         fi = idx.func('pydbml.parser.parser', 'PyDBMLParser.locate_table')
-        guard_obligation(ctx, col, rule, fi, 'both-lookups-miss', lambda lits, n: ('none', 'result') in lits and len(lits) == 1,
-                         [EXC + 'TableNotFoundError'], protect=is_normal_return, what='result is None after both lookups',
-                         subst_locals=False)
+        # path semantics (independent of variable names and of early-return vs. fall-through style): every normal return hands back
+        # a table_dict lookup result that was tested `is not None` on that path, and the paths on which every tested lookup result was
+        # None end in TableNotFoundError
+        n_ret = n_raise = 0
+        bad = None
+        for path in paths_of(fi, 1):
+            last = path[-1]
+            lits = [c for ev in path if ev.kind == 'test' for c in conjuncts(term(ev.node, ev.outcome))]
+            lookups = set()
+            for ev in path:
+                if ev.kind == 'stmt' and isinstance(ev.node, ast.Assign) and isinstance(ev.node.targets[0], ast.Name):
+                    v = ev.node.value
+                    if (isinstance(v, ast.Call) and isinstance(v.func, ast.Attribute) and v.func.attr == 'get' and access_path(v.func.value) == 'self.database.table_dict') or \
+                            (isinstance(v, ast.Subscript) and access_path(v.value) == 'self.database.table_dict'):
+                        lookups.add(ev.node.targets[0].id)
+            if last.kind == 'return' and last.node is not None and last.node.value is not None:
+                n_ret += 1
+                rv = norm(last.node.value)
+                if rv not in lookups:
+                    bad = bad or (last, f'returns `{rv}`, which is not a table_dict lookup result')
+                elif ('not', ('none', rv)) not in lits and ('truthy', rv) not in lits:
+                    bad = bad or (last, f'returns the lookup result `{rv}` without having established that it is not None: a missing table yields None instead of '
+                                        f'the table-not-found error')
+            elif last.kind == 'raise':
+                cls = resolve_exc(ctx, fi, last.node.exc)
+                if cls == EXC + 'TableNotFoundError':
+                    n_raise += 1
+                    if not lookups or not all(('none', v) in lits or ('not', ('truthy', v)) in lits for v in lookups):
+                        bad = bad or (last, 'raises table-not-found although a lookup result was not tested to be None on that path')
+            elif last.kind == 'return':
+                bad = bad or (last, 'falls off the end (returns None) instead of raising table-not-found')
+        cons = 'PyDBMLParser.locate_table:both-lookups-miss'
+        if bad is not None:
+            col.bad(rule, cons, f'locate_table {bad[1]}', node=bad[0].node if bad[0].node is not None else fi.node, file=fi.file)
+        elif n_ret >= 1 and n_raise >= 1:
+            col.ok(rule, cons, f'every return hands back a lookup result that is not None ({n_ret} paths); exhausting the lookups raises TableNotFoundError ({n_raise} paths)',
+                   node=fi.node, file=fi.file)
+        else:
+            col.unk(rule, cons, f'locate_table: {n_ret} returning and {n_raise} table-not-found paths recognised', node=fi.node, file=fi.file)
         # both keys are looked up in the table_dict of the database being built
         gets = [n for n in walk_no_nested(fi.node) if isinstance(n, ast.Call) and isinstance(n.func, ast.Attribute)
                 and n.func.attr in ('get', '__getitem__') and access_path(n.func.value) == 'self.database.table_dict']
